@@ -79,6 +79,11 @@ impl Scanner {
         self.pos
     }
 
+    /// 1-based number of the line that holds the char offset `pos`
+    pub(crate) fn line_of(&self, pos: usize) -> usize {
+        self.lines.partition_point(|&start| start <= pos) + 1
+    }
+
     pub(crate) fn preback(&self) -> (usize, bool) {
         (self.pos, self.semicolon)
     }
